@@ -15,6 +15,7 @@ type regExpParser struct {
 	offset    int
 	chr       rune
 	invalid   bool
+	assertion bool // the previous term was an assertion (^ $ \b \B), which takes no quantifier
 }
 
 // TransformRegExp transforms a JavaScript pattern into  a Go "regexp" pattern.
@@ -56,8 +57,29 @@ func TransformRegExp(pattern string) (string, error) {
 	return p.goRegexp.String(), err
 }
 
+// checkQuantifier reports a quantifier that follows an assertion: Term ::
+// Assertion takes none (15.10.1), but re2 would accept it.
+func (p *regExpParser) checkQuantifier() {
+	wasAssertion := p.assertion
+	p.assertion = false
+	switch p.chr {
+	case '*', '+', '?', '{':
+		if wasAssertion {
+			p.error(-1, "Nothing to repeat")
+			p.invalid = true
+		}
+	case '^', '$':
+		p.assertion = true
+	case '\\':
+		if p.offset < p.length && (p.str[p.offset] == 'b' || p.str[p.offset] == 'B') {
+			p.assertion = true
+		}
+	}
+}
+
 func (p *regExpParser) scan() {
 	for p.chr != -1 {
+		p.checkQuantifier()
 		switch p.chr {
 		case '\\':
 			p.read()
@@ -99,6 +121,7 @@ func (p *regExpParser) scanGroup() {
 		p.invalid = true
 	}
 	for p.chr != -1 && p.chr != ')' {
+		p.checkQuantifier()
 		switch p.chr {
 		case '\\':
 			p.read()
@@ -121,6 +144,7 @@ func (p *regExpParser) scanGroup() {
 		p.invalid = true
 		return
 	}
+	p.assertion = false // a group is an Atom, whatever it ends with
 	p.pass()
 }
 
